@@ -493,8 +493,11 @@ class Scheduler:
             return
         nxt = self.strategy.choose(tuple(runnable), self.current if self.current in runnable else None, len(self.decisions), self.waiting)
         self.decisions.append((tuple(runnable), nxt))
-        self.current = nxt
-        self.cv.notify_all()
+        if nxt != self.current:
+            # wake the parked actors only when the baton really changes hands: under load every needless wake-up
+            # costs two context switches
+            self.current = nxt
+            self.cv.notify_all()
 
     def actor_main(self, ip, name, fn, results):
         ip.actors[threading.get_ident()] = name
@@ -522,9 +525,9 @@ class Scheduler:
         for t in threads:
             t.start()
         for t in threads:
-            t.join(60)
+            t.join(900)
             if t.is_alive():
-                raise RuntimeError("scheduler deadlock / actor did not finish")
+                raise RuntimeError("scheduler deadlock / actor did not finish within 900 s")
         return results
 
 
